@@ -108,11 +108,15 @@ impl Clone for Response {
 
 // ---------- Api ----------
 pub uninterp spec fn addr_valid(s: Seq<char>) -> bool;   // what the chain's address validation accepts
+// well-formed account / contract addresses of the chain (fixed format). Validated strings, transaction senders and the
+// addresses of contracts that answer queries are well-formed; arbitrary caller-supplied strings are not assumed to be.
+pub uninterp spec fn is_address(s: Seq<char>) -> bool;
 pub struct Api { pub _a: Ghost<int> }
 impl Api {
     // addr_validate(s) returns the same text as an Addr, or Err (T2)
     #[verifier::external_body]
     pub fn addr_validate(&self, human: &str) -> (r: StdResult<Addr>)
         ensures r is Ok <==> addr_valid(human@), r is Ok ==> r->Ok_0@ == human@,
+            r is Ok ==> is_address(human@),
     { unimplemented!() }
 }
